@@ -396,6 +396,50 @@ CATALOGUE += [
 ]
 
 
+# ----------------------------------------------------------------------------- ill-typed programs that get ACCEPTED
+# C02 speaks about every program the compiler accepts.  The type checker's own mistakes show exactly on programs it
+# should have refused, so the single type-breaking edits of C03 (site mutants of generated programs, and C03's
+# whole-program catalogue) are run here too: a mutant that is rejected says nothing; one that is ACCEPTED is an
+# accepted program like any other — it must end ok or with a defined failure, and its (typeof, kind) pairs must agree.
+def run_mutants(seed):
+    from . import c03
+    text, sites, g = tgen.gen(seed)
+    out = {"mutants": 0, "rejected": 0, "accepted": 0, "problems": [], "inconclusive": 0}
+    r0, _, _ = core.run_program({"main.ms": text}, typed=True, cpu=10)
+    if r0.cls != "ok":
+        return out
+    aliases, classes = dict(g.alias), set(g.classes)
+    for s_ in sites:
+        for fid, repl in c03.faults_for(s_):
+            if repl == s_.text:
+                continue
+            mutated = tgen.splice(text, s_, repl)
+            r, _, _ = core.run_program({"main.ms": mutated}, typed=True, cpu=10)
+            out["mutants"] += 1
+            a = analyse(mutated, r, aliases, classes)
+            if not a["accepted"]:
+                out["rejected"] += 1
+                continue
+            if "inconclusive" in a:
+                out["inconclusive"] += 1
+                continue
+            out["accepted"] += 1
+            for pcls, detail in a.get("problems", []):
+                out["problems"].append({"sig": "C02:accepted_mutant:%s/%s:%s" % (s_.kind, fid, pcls), "class": pcls, "detail": detail,
+                                        "text": mutated, "case": "seed %d, %s at a %s site (line %d)" % (seed, fid, s_.kind, s_.line + 1),
+                                        "run": r.brief()})
+    return out
+
+
+def run_c03_catalogue(item):
+    name, src = item
+    files = src if isinstance(src, dict) else {"main.ms": src}
+    r, _, _ = core.run_program(files, typed=True, cpu=10)
+    a = analyse(files["main.ms"], r, {}, set(re.findall(r"class (\w+)", files["main.ms"])))
+    return {"name": name, "accepted": a["accepted"], "problems": a.get("problems", []) if a["accepted"] and "inconclusive" not in a else [],
+            "files": files, "run": r.brief()}
+
+
 def run_case(item):
     kind, arg = item
     if kind == "rand":
@@ -489,6 +533,37 @@ def run(ctx):
                          "feature_counts": feats, "catalogue_cases": len(CATALOGUE),
                          "avoidance_rules": ["negate_alias_typed (compiler panic, C16)",
                                              "loop counters / fuel variables never written"]})
+    # ill-typed programs that the compiler accepts (see run_mutants)
+    from . import c03 as _c03
+    mres = core.pmap(run_mutants, [base + 500000 + i for i in range(ctx.n(10, 80))], chunksize=1)
+    mcov = {"mutants_run": 0, "rejected_by_the_compiler": 0, "accepted_and_analysed": 0}
+    for status, res in mres:
+        if status != "ok":
+            out.inconclusive.append(str(res)[-300:])
+            continue
+        mcov["mutants_run"] += res["mutants"]
+        mcov["rejected_by_the_compiler"] += res["rejected"]
+        mcov["accepted_and_analysed"] += res["accepted"]
+        out.evaluations += res["accepted"]
+        for pr in res["problems"]:
+            out.violations.append(core.Violation(pr["sig"], "an ill-typed edit is ACCEPTED and then: %s: %s" % (pr["class"], pr["detail"]),
+                                                 {"files": {"main.ms": pr["text"]}, "case": pr["case"], "class": pr["class"],
+                                                  "detail": pr["detail"], "run": pr["run"]}))
+    cres = core.pmap(run_c03_catalogue, [c for c in _c03.EXTRA if c[1] is not None and not c[0].startswith("control:")], chunksize=4)
+    mcov["c03_catalogue_programs"] = 0
+    mcov["c03_catalogue_accepted"] = []
+    for status, res in cres:
+        if status != "ok":
+            continue
+        mcov["c03_catalogue_programs"] += 1
+        if res["accepted"]:
+            mcov["c03_catalogue_accepted"].append(res["name"])
+            out.evaluations += 1
+            for pcls, detail in res["problems"]:
+                out.violations.append(core.Violation("C02:accepted_ill_typed:%s:%s" % (res["name"], pcls),
+                                                     "C03's ill-typed catalogue program `%s` is ACCEPTED and then: %s: %s" % (res["name"], pcls, detail),
+                                                     {"files": res["files"], "case": res["name"], "class": pcls, "detail": detail, "run": res["run"]}))
+    out.coverage["ill_typed_programs_lane"] = mcov
     if ctx.tier == "thorough" and not os.environ.get("VERIF_NO_SANITIZER_LANE"):
         # AddressSanitizer lane (deciding here): a memory error of the interpreter on an accepted program is a failure
         # outside the ones the statement allows.
